@@ -265,6 +265,9 @@ int decide(int self, bool self_enabled, bool self_yielding) {
   }
   uint8_t flags = 0;
   if (self_enabled) flags |= PF_PREEMPT;
+  // only spinners are left: the default is the fair (round-robin) successor; any other order costs one unit of the budget,
+  // otherwise the explorer could starve a spinner that would make progress for ever and call the result a livelock
+  if (only_yielders) flags |= PF_COSTALL;
   if (self_yielding && !only_yielders) { en[n++] = self; flags |= PF_LASTCOST; }
   if (n == 1) return en[0];  // forced move: not a choice point
   uint32_t pos = g_rec->npoints.load(std::memory_order_relaxed);
@@ -279,7 +282,7 @@ int decide(int self, bool self_enabled, bool self_yielding) {
   }
   record_point((uint32_t)n, (uint32_t)idx, flags);
   if (idx != 0) {
-    if (flags & PF_PREEMPT) ++g_cost;
+    if (flags & (PF_PREEMPT | PF_COSTALL)) ++g_cost;
     else if ((flags & PF_LASTCOST) && idx == n - 1) ++g_cost;
   }
   return en[idx];
